@@ -26,14 +26,16 @@ differences of the numpy transcription):
   composition     L single-step requests chained through injected momenta == one L-step request
   gradient-stream (eager) every (position, gradient) pair seen by selection_gradient satisfies
                   gradient == reference gradient; the visited positions are the reference trajectory
-  momenta-law     pooled drawn momenta are N(0,1) (mean / variance / KS, two-stage confirmation);
-                  momenta of different leaves are not copies of each other
+  momenta-law     drawn momenta (observed inside HMC.edit, pooled with direct draws from
+                  sample_momenta over fresh keys) are N(0,1): mean / variance / KS with two-stage
+                  confirmation; momenta of different leaves are not copies of each other
   raises          the request must return for every templated case
 """
 
 from __future__ import annotations
 
 import math
+import os
 
 import numpy as np
 
@@ -44,7 +46,7 @@ CONFIG = {
     "level": "exploration",
     "shards": {"quick": 16, "thorough": 16},
     "timeout_s": {"quick": 600, "thorough": 3000},
-    "rule": "case = model template (chain, linear-gaussian control, funnel with vector leaf, heavy tails cauchy/student-t/gumbel, vector leaf, hierarchical sub-call + vmap, scan kernel, continuous next to discrete) with random parameters and a full random start assignment x selection (one / several / all continuous choices, sub-trace prefixes, selections that also cover discrete choices) x eps log-uniform in [1e-3, 0.3] (half of the cases >= 0.05) x L in {1,2,3,4,5,10} x mode (eager / jit / vmap over keys); every key is one evaluation of every monitor. non-trivial: L >= 2, eps >= 0.02 and a non-quadratic or multi-dimensional target; distinct by (template, selection, L class, eps class, mode).",
+    "rule": "family = one traced computation: model template (chain, linear-gaussian control, funnel with vector leaf, heavy tails cauchy/student-t/gumbel, vector leaf, hierarchical sub-call + vmap, scan kernel, continuous next to discrete) x selection (one / several / all continuous choices, sub-trace prefixes, selections that also cover discrete choices) x L in {1,2,3,4,5,10} x mode (eager / jit / jit(vmap)); through each family go 1-6 variants (random model parameters, full random start assignment, eps log-uniform in [1e-3, 0.3] with 60% >= 0.05) x 1-3 keys; every (variant, key) is one evaluation of every monitor. non-trivial: L >= 2, eps >= 0.02 and a non-quadratic or multi-dimensional target; distinct by (template, selection, L class, eps class, mode).",
     "reach_anchors": [f"{HM}:HMC.edit", f"{HM}:selection_gradient", f"{HM}:sample_momenta", f"{HM}:assess_momenta"],
     "reach_required": [f"{HM}:HMC.edit", f"{HM}:selection_gradient", f"{HM}:sample_momenta", f"{HM}:assess_momenta"],
     "counters_required": [
@@ -149,53 +151,76 @@ def _close_scalar(o, r, sens=0.0, terms=8, mult=40.0):
 
 
 class Ref:
-    """Reference dynamics of one case (float64)."""
+    """Reference dynamics of one family (float64).  The gradient is jax.grad of the jnp
+    transcription, compiled once per family under enable_x64; parameters, the moving choices
+    and the resting continuous choices are its inputs."""
 
-    def __init__(self, tpl, sel_cont, start_vals, jax, jnp):
-        self.tpl = tpl
-        self.sel = list(sel_cont)
-        self.fixed = {a: (np.asarray(v, np.float64) if tpl["kinds"][a] == "c" else np.asarray(v)) for a, v in start_vals.items()}
-        logp = tpl["logp"]
-        fixed = self.fixed
-        sel = self.sel
+    def __init__(self, tpl, sel_cont, disc_vals, jax, jnp):
         from jax.experimental import enable_x64
 
-        self._x64 = enable_x64
+        self.tpl, self.sel, self.disc = tpl, list(sel_cont), dict(disc_vals)
+        self.rest_keys = [a for a in tpl["cont"] if a not in self.sel]
+        self._x64, self._jnp = enable_x64, jnp
+        logp, disc = tpl["logp"], self.disc
         with enable_x64():
 
-            def f(qsel):
-                vv = dict(fixed)
+            def f(qsel, rest, th):
+                vv = dict(disc)
+                vv.update(rest)
                 vv.update(qsel)
-                return logp(vv, jnp)
+                return logp(vv, th, jnp)
 
             self._jgrad = jax.jit(jax.grad(f))
-        self._jnp = jnp
+
+    def bind(self, th, start_vals):
+        return RefV(self, np.asarray(th, np.float64), {a: np.asarray(start_vals[a], np.float64) for a in self.rest_keys})
+
+
+class RefV:
+    """`Ref` bound to one variant (parameters and resting choices)."""
+
+    def __init__(self, fam, th, rest):
+        self.fam, self.th, self.rest = fam, th, rest
 
     def full(self, qsel):
-        vv = dict(self.fixed)
+        vv = dict(self.fam.disc)
+        vv.update(self.rest)
         vv.update(_f64(qsel))
         return vv
 
     def logp(self, qsel):
         with np.errstate(all="ignore"):
-            return float(self.tpl["logp"](self.full(qsel), np))
+            return float(self.fam.tpl["logp"](self.full(qsel), self.th, np))
 
     def grad(self, qsel):
-        with self._x64():
-            g = self._jgrad({a: self._jnp.asarray(np.asarray(qsel[a], np.float64)) for a in self.sel})
-            return {a: np.asarray(g[a], np.float64) for a in self.sel}
+        fam = self.fam
+        with fam._x64():
+            j = fam._jnp
+            g = fam._jgrad({a: j.asarray(np.asarray(qsel[a], np.float64)) for a in fam.sel}, {a: j.asarray(v) for a, v in self.rest.items()}, j.asarray(self.th))
+            return {a: np.asarray(g[a], np.float64) for a in fam.sel}
 
     def grad_fd(self, qsel):
         from vf.ref import leapfrog as LF
 
-        return LF.central_grad(lambda q: float(self.tpl["logp"](q, np)), self.full(qsel), self.sel)
+        return LF.central_grad(lambda q: float(self.fam.tpl["logp"](q, self.th, np)), self.full(qsel), self.fam.sel)
 
 
 def _perturb(rng, d, rel=1e-6):
     return {k: np.asarray(v, np.float64) + rel * (1.0 + np.abs(np.asarray(v, np.float64))) * rng.choice([-1.0, 1.0], size=np.shape(v)) for k, v in d.items()}
 
 
-def run_case(ctx, ci, genjax, jax, jnp, pool):
+def _exc_chain(e):
+    out, seen = [], set()
+    while e is not None and id(e) not in seen:
+        seen.add(id(e))
+        out.append(e)
+        e = e.__cause__ or e.__context__
+    return out
+
+
+def run_family(ctx, fi, genjax, jax, jnp, pool):
+    """One family = one traced computation (template structure, selection, L, mode); many variants
+    (parameters, start assignment, step size) x keys are pushed through it."""
     import jax.tree_util as jtu
     from genjax import Diff
     from genjax.inference.requests import HMC
@@ -203,59 +228,79 @@ def run_case(ctx, ci, genjax, jax, jnp, pool):
     from vf.gen import c28_models
     from vf.ref import leapfrog as LF
 
-    rng = ctx.child_rng(28, ci)
-    tpl = c28_models.draw(rng, genjax, jnp)
-    sel_label, selection, covered = tpl["selections"][int(rng.integers(len(tpl["selections"])))]
-    mode = ["eager", "jit", "jit", "vmap", "vmap", "vmap"][int(rng.integers(6))]
-    L = int(rng.choice([1, 2, 3, 4, 5, 10]))
-    eps = float(np.round(math.exp(rng.uniform(math.log(0.05), math.log(0.3))), 4)) if rng.random() < 0.5 else float(np.round(math.exp(rng.uniform(math.log(1e-3), math.log(0.3))), 4))
-    do_comp = bool(rng.random() < 0.4) and 2 <= L <= 5 and mode != "eager"
-    addrs = list(tpl["start"].keys())
-    readers = tpl["readers"]
-    sel_cont = [a for a in covered if tpl["kinds"][a] == "c"]
-    covers_discrete = any(tpl["kinds"][a] != "c" for a in covered)
+    srng = ctx.child_rng(28, fi)
+    tpl = c28_models.draw(srng, genjax, jnp)
+    sel_label, selection, covered = tpl["selections"][int(srng.integers(len(tpl["selections"])))]
+    mode = ["eager", "jit", "jit", "vmap", "vmap", "vmap"][int(srng.integers(6))]
+    L = int(srng.choice([1, 2, 3, 4, 5, 10]))
+    do_comp = bool(srng.random() < 0.5) and 2 <= L <= 5 and mode != "eager"
+    # a selected continuous choice held as a plain Python float (only observable un-jitted)
+    pyfloat = []
+    if mode == "eager" and tpl.get("pyfloat_ok") and srng.random() < 0.6:
+        pyfloat = list(tpl["pyfloat_ok"])
+        cand = [s_ for s_ in tpl["selections"] if all(a in s_[2] for a in pyfloat)]
+        sel_label, selection, covered = cand[int(srng.integers(len(cand)))]
+    nvar, nkeys = {"eager": (1, 1), "jit": (ctx.pick(3, 4), 2), "vmap": (ctx.pick(4, 6), 3)}[mode]
+    kinds, readers = tpl["kinds"], tpl["readers"]
+    addrs = list(kinds)
+    sel_cont = [a for a in covered if kinds[a] == "c"]
+    covers_discrete = any(kinds[a] != "c" for a in covered)
     unselected = [a for a in addrs if a not in sel_cont]
-    label = f"{tpl['name']}/sel={sel_label}/L={L}/eps={eps}/{mode}"
     lclass = "L-one" if L == 1 else "L-multi"
-    fp = (tpl["name"], sel_label, min(L, 3), eps >= 0.02, mode)
-    nkeys = {"eager": 1, "jit": ctx.pick(4, 6), "vmap": ctx.pick(4, 6)}[mode]
-    ndim = int(sum(np.size(tpl["start"][a]) for a in sel_cont))
-    nontrivial = bool(L >= 2 and eps >= 0.02 and (not tpl["quadratic"] or ndim >= 2))
+    fam_label = f"{tpl['name']}/sel={sel_label}/L={L}/{mode}" + ("/pyfloat" if pyfloat else "")
+    model, mk_args = tpl["model"], tpl["mk_args"]
+    only = os.environ.get("VERIF_C28_ONLY")  # debugging aid: run only the families whose label contains this text
+    if only and only not in fam_label:
+        return
 
-    model, args = tpl["model"], tpl["args"]
-    tr, _ = jax.jit(lambda k, c, a: model.importance(k, c, a))(jax.random.key(2000 + ci), tpl["constraint"], args)
-    got0 = {a: np.asarray(readers[a](tr.get_choices())) for a in addrs}
-    for a in addrs:
-        if not np.array_equal(got0[a], np.asarray(tpl["start"][a]).astype(got0[a].dtype)):
+    # ---- variants
+    variants = []
+    for vi in range(nvar):
+        vr = ctx.child_rng(28, fi, vi)
+        th = tpl["draw_params"](vr)
+        start = tpl["draw_start"](vr)
+        eps = float(np.round(math.exp(vr.uniform(math.log(0.05), math.log(0.3))), 4)) if vr.random() < 0.6 else float(np.round(math.exp(vr.uniform(math.log(1e-3), math.log(0.3))), 4))
+        variants.append(dict(th=th, start=start, eps=eps, keys=[jax.random.key(int(k)) for k in vr.integers(1, 2**31 - 1, size=nkeys)], rng=vr))
+    imp = lambda k, c, th: model.importance(k, c, mk_args(th))[0]  # noqa: E731
+    if not pyfloat:
+        imp = jax.jit(imp)
+    ref_fam = Ref(tpl, sel_cont, {a: np.asarray(variants[0]["start"][a]) for a in tpl["disc"]}, jax, jnp)
+    good = []
+    for vi, v in enumerate(variants):
+        tr = imp(jax.random.key(3000 + 17 * fi + vi), tpl["mk_constraint"](v["start"], pyfloat), jnp.asarray(v["th"], jnp.float32))
+        got0 = {a: np.asarray(readers[a](tr.get_choices())) for a in addrs}
+        if not all(np.array_equal(got0[a], np.asarray(v["start"][a]).astype(got0[a].dtype)) for a in addrs):
             ctx.count("skipped_start_not_installed")
-            ctx.note(f"start not installed at {a}: {label}")
-            return
-    ref = Ref(tpl, sel_cont, got0, jax, jnp)
-    q0 = _f64({a: got0[a] for a in sel_cont})
-    lp0 = ref.logp(q0)
-    ctx.count("start_score_checked")
-    if not common.close(float(tr.get_score()), lp0, terms=8):
-        ctx.violation(f"C28|op=importance|on=model|field=start-score|cond={tpl['name']}", detail=f"{label}: trace score {float(tr.get_score())!r} reference {lp0!r}")
+            ctx.note(f"start not installed: {fam_label}")
+            continue
+        th32 = np.asarray(jnp.asarray(v["th"], jnp.float32), np.float64)  # the parameters the model actually saw
+        rv = ref_fam.bind(th32, got0)
+        q0 = _f64({a: got0[a] for a in sel_cont})
+        lp0 = rv.logp(q0)
+        ctx.count("start_score_checked")
+        if not common.close(float(tr.get_score()), lp0, terms=8):
+            ctx.violation(f"C28|op=importance|on=model|field=start-score|cond={tpl['name'].rstrip('0123456789')}", detail=f"{fam_label}: trace score {float(tr.get_score())!r} reference {lp0!r}")
+            continue
+        g0, g0fd = rv.grad(q0), rv.grad_fd(q0)
+        if _maxdiff(g0, g0fd) > 1e-5 * (1.0 + max(float(np.max(np.abs(g0[a]))) for a in g0)):
+            ctx.count("oracle_selfcheck_failed")
+            ctx.note(f"oracle gradient self-check failed, variant skipped: {fam_label} {g0} {g0fd}")
+            continue
+        ctx.count("oracle_gradient_selfchecks")
+        v.update(tr=tr, got0=got0, rv=rv, q0=q0, lp0=lp0)
+        good.append(v)
+    if not good:
         return
-    # oracle self-check: analytic gradient vs central differences at the start
-    g0, g0fd = ref.grad(q0), ref.grad_fd(q0)
-    if _maxdiff(g0, g0fd) > 1e-5 * (1.0 + max(float(np.max(np.abs(g0[a]))) for a in g0)):
-        ctx.count("oracle_selfcheck_failed")
-        ctx.note(f"oracle gradient self-check failed, case skipped: {label} {g0} {g0fd}")
-        return
-
-    argdiffs = Diff.no_change(args)
-    eps_arr = jnp.asarray(eps, jnp.float32)
 
     # template for injected momenta: laid out like the selected part of the choice map
-    inj0 = jtu.tree_map(lambda v: jnp.zeros_like(jnp.asarray(v)), tr.get_choices().filter(selection))
+    inj0 = jtu.tree_map(lambda x: jnp.zeros_like(jnp.asarray(x, jnp.float32) if isinstance(x, float) else jnp.asarray(x)), good[0]["tr"].get_choices().filter(selection))
 
     def make_f(steps):
-        def f(trace, key_data, inj, flag):
+        def f(trace, key_data, inj, flag, eps):
             TAP["inject"] = (inj, flag)
             TAP["assess"] = []
             try:
-                new_tr, alpha, _rd, _bwd = HMC(selection, eps_arr, steps).edit(jax.random.wrap_key_data(key_data), trace, argdiffs)
+                new_tr, alpha, _rd, _bwd = HMC(selection, eps, steps).edit(jax.random.wrap_key_data(key_data), trace, Diff.no_change(trace.get_args()))
             finally:
                 TAP["inject"] = None
             ch = new_tr.get_choices()
@@ -265,163 +310,178 @@ def run_case(ctx, ci, genjax, jax, jnp, pool):
 
     f_L = make_f(L)
     stream = []
-    if mode == "jit":
-        jf = jax.jit(f_L)
-    elif mode == "vmap":
-        jf = jax.jit(jax.vmap(f_L))
+    jf = jax.jit(f_L) if mode == "jit" else (jax.jit(jax.vmap(f_L)) if mode == "vmap" else None)
 
     def run_items(items, want_stream=False):
-        """items: list of (trace, key, inj tree, flag) -> list of (result, stream or None)."""
+        """items: list of (trace, key, inj tree, flag, eps) -> list of (result, stream or None)."""
         res = []
         if mode == "eager":
-            for t_, k_, i_, fl_ in items:
+            for t_, k_, i_, fl_, e_ in items:
                 del stream[:]
                 TAP["stream"] = stream if want_stream else None
                 try:
-                    r_ = f_L(t_, jax.random.key_data(k_), i_, jnp.asarray(fl_))
+                    r_ = f_L(t_, jax.random.key_data(k_), i_, jnp.asarray(fl_), jnp.asarray(e_, jnp.float32))
                     jax.effects_barrier()
                 finally:
                     TAP["stream"] = None
                 res.append((r_, list(stream) if want_stream else None))
         elif mode == "jit":
-            for t_, k_, i_, fl_ in items:
-                res.append((jf(t_, jax.random.key_data(k_), i_, jnp.asarray(fl_)), None))
+            for t_, k_, i_, fl_, e_ in items:
+                res.append((jf(t_, jax.random.key_data(k_), i_, jnp.asarray(fl_), jnp.asarray(e_, jnp.float32)), None))
         else:
             stack = lambda *xs: jnp.stack([jnp.asarray(x) for x in xs])  # noqa: E731
             tb = jtu.tree_map(stack, *[it[0] for it in items])
             kb = jnp.stack([jax.random.key_data(it[1]) for it in items])
             ib = jtu.tree_map(stack, *[it[2] for it in items])
             fb = jnp.asarray([bool(it[3]) for it in items])
-            rb = jf(tb, kb, ib, fb)
+            eb = jnp.asarray([it[4] for it in items], jnp.float32)
+            rb = jf(tb, kb, ib, fb, eb)
+            rb = jtu.tree_map(np.asarray, rb)
             for i in range(len(items)):
-                res.append((jtu.tree_map(lambda v: v[i], rb), None))
+                res.append((jtu.tree_map(lambda x: x[i], rb), None))
         return res
 
-    keys = [jax.random.key(int(k)) for k in rng.integers(1, 2**31 - 1, size=nkeys)]
+    items = [(v["tr"], k, inj0, False, v["eps"]) for v in good for k in v["keys"]]
+    owner = [v for v in good for _ in v["keys"]]
+    fp0 = (tpl["name"], sel_label, min(L, 3), mode)
     try:
-        outs = run_items([(tr, k, inj0, False) for k in keys], want_stream=True)
+        outs = run_items(items, want_stream=True)
     except Exception as e:
         ctx.count("raised")
-        chain, seen = [], set()
-        x = e
-        while x is not None and id(x) not in seen:
-            seen.add(id(x))
-            chain.append(x)
-            x = x.__cause__ or x.__context__
+        chain = _exc_chain(e)
         mech = common.exc_mechanism(e)
-        ctx.evaluation(fingerprint=fp + ("raises",), nontrivial=True)
-        if covers_discrete and any("grad_tree_zip" in common.exc_mechanism(x) or "selection_gradient" in common.exc_mechanism(x) for x in chain):
+        ctx.evaluation(fingerprint=fp0 + ("raises",), nontrivial=True)
+        if (covers_discrete or pyfloat) and any(("grad_tree_zip" in common.exc_mechanism(x)) or ("selection_gradient" in common.exc_mechanism(x)) for x in chain):
             sig = "C28|op=edit|on=HMC|field=raises|cond=selection-covers-nondifferentiable-leaf"
         else:
             sig = f"C28|op=edit|on=HMC|field=raises|cond={mode},{mech}"
-        ctx.violation(sig, detail=f"{label}: {type(e).__name__}: {str(e)[:160]}", case=label, mechanism=mech, selection=sel_label, start={str(a): np.asarray(v).tolist() for a, v in tpl["start"].items()})
+        ctx.violation(sig, detail=f"{fam_label}: {type(e).__name__}: {str(e)[:160]}", case=fam_label, mechanism=mech, selection=sel_label, start={str(a): np.asarray(x).tolist() for a, x in good[0]["start"].items()})
         return
+    ctx.count("families")
+    ctx.count(f"mode:{mode}:families")
+    if pyfloat:
+        ctx.count("families_with_python_float_choice")
 
-    first_end = []
-    for ki, (r, strm) in enumerate(outs):
-        new = {a: np.asarray(v) for a, v in zip(addrs, r["vals"])}
-        alpha, score_end, p0score = float(r["alpha"]), float(r["score"]), float(r["p0score"])
-        try:
-            p0 = _f64({a: readers[a](r["p0"]) for a in sel_cont})
-            pL_obs = _f64({a: readers[a](r["pL"]) for a in sel_cont})
-        except Exception as e:
-            ctx.count("momenta_unreadable")
-            ctx.note(f"drawn momenta not readable by address ({type(e).__name__}); case skipped: {label}")
-            return
-        ctx.evaluation(fingerprint=fp, nontrivial=nontrivial)
-        ctx.count(f"mode:{mode}")
-        ctx.count(f"template:{tpl['name']}")
-        ctx.count(f"L:{L}")
-        if covers_discrete:
-            ctx.count("selection_covers_discrete")
-        # ---- unselected choices (and selected discrete ones) do not move
-        for a in unselected:
-            ctx.count("unselected_checked")
-            if not np.array_equal(new[a], got0[a]):
-                what = "selected-discrete-choice" if a in covered else "unselected-choice"
-                ctx.violation(f"C28|op=edit|on=HMC|field={what}|cond=moved", detail=f"{label}: {a} changed {got0[a].tolist()} -> {new[a].tolist()}", case=label)
-        # ---- momenta bookkeeping
-        ctx.count("momenta_score_checked")
-        if not _close_scalar(p0score, LF.kinetic_logpdf(p0), terms=max(ndim, 1)):
-            ctx.violation("C28|op=edit|on=HMC|field=momenta-score|cond=initial", detail=f"{label}: score returned with the momenta {p0score!r}, sum log N(p0) = {LF.kinetic_logpdf(p0)!r}", case=label)
-        pool["p0"].extend(np.concatenate([np.ravel(p0[a]) for a in sel_cont]).tolist())
-        leaves = [np.ravel(p0[a]) for a in sel_cont]
-        for i in range(len(leaves)):
-            for j in range(i + 1, len(leaves)):
-                if leaves[i].shape == leaves[j].shape:
-                    ctx.count("momenta_leaf_pairs_checked")
-                    if np.array_equal(leaves[i], leaves[j]):
-                        ctx.violation("C28|op=edit|on=HMC|field=momenta|cond=identical-across-leaves", detail=f"{label}: momenta of {sel_cont[i]} and {sel_cont[j]} are identical: {leaves[i].tolist()}", case=label)
-        # ---- reference trajectory with the observed momenta
-        with np.errstate(all="ignore"):
-            qL, pL, traj = LF.leapfrog(q0, p0, ref.grad, eps, L, trajectory=True)
-            prng = np.random.default_rng(int(rng.integers(1 << 30)))
-            qLs, pLs = LF.leapfrog(_perturb(prng, q0), _perturb(prng, p0), ref.grad, eps, L)
-            lpL = ref.logp(qL)
-            lpLs = ref.logp(qLs)
-        finite = all(np.all(np.isfinite(qL[a])) and np.all(np.isfinite(pL[a])) for a in sel_cont) and np.isfinite(lpL)
-        sens_q = {a: np.abs(qLs[a] - qL[a]) for a in sel_cont}
-        sens_p = {a: np.abs(pLs[a] - pL[a]) for a in sel_cont}
-        ill = (not finite) or any(np.any(40 * sens_q[a] > 0.02 * (1 + np.abs(qL[a]))) or np.any(40 * sens_p[a] > 0.02 * (1 + np.abs(pL[a]))) for a in sel_cont)
-        if ill:
-            ctx.count("skipped_nonfinite_or_ill_conditioned")
-            continue
-        q_end = _f64({a: new[a] for a in sel_cont})
-        traj_ok = _close_dict(q_end, qL, sens_q)
-        ctx.count("trajectory_checked")
-        if L >= 2:
-            ctx.count("trajectory_checked_multistep")
-        stale = False
-        if not traj_ok:
-            qS, pS = LF.leapfrog_stale(q0, p0, ref.grad, eps, L)
-            stale = L >= 2 and _close_dict(q_end, qS, sens_q)
-            cond = "stale-first-half-kick" if stale else lclass
-            ctx.violation(
-                f"C28|op=edit|on=HMC|field=trajectory|cond={cond}",
-                detail=f"{label}: selected values after the request { {str(a): q_end[a].tolist() for a in sel_cont} }, {L} textbook leapfrog steps give { {str(a): qL[a].tolist() for a in sel_cont} }" + (f"; an integrator that reuses the start gradient for every first half-kick gives { {str(a): qS[a].tolist() for a in sel_cont} }" if stale else ""),
-                case=label,
-                start={str(a): q0[a].tolist() for a in sel_cont},
-                momenta={str(a): p0[a].tolist() for a in sel_cont},
-            )
-        ctx.count("final_momentum_checked")
-        mom_ok = _close_dict(pL_obs, pL, sens_p)
-        if not mom_ok:
-            cond = "stale-first-half-kick" if stale else lclass
-            ctx.violation(f"C28|op=edit|on=HMC|field=final-momentum|cond={cond}", detail=f"{label}: final momenta { {str(a): pL_obs[a].tolist() for a in sel_cont} } reference { {str(a): pL[a].tolist() for a in sel_cont} }", case=label)
-        # ---- alpha from the observed end state (energy bookkeeping, independent of the integrator)
-        lp_end_obs = ref.logp(q_end)
-        if np.isfinite(lp_end_obs):
-            ctx.count("alpha_energy_checked")
-            a_energy = (lp_end_obs + LF.kinetic_logpdf(pL_obs)) - (lp0 + LF.kinetic_logpdf(p0))
-            if not _close_scalar(alpha, a_energy, terms=16):
-                ctx.violation(f"C28|op=edit|on=HMC|field=alpha-energy|cond={lclass}", detail=f"{label}: alpha {alpha!r}, H(start)-H(end) on the observed end state {a_energy!r}", case=label)
-            ctx.count("new_score_checked")
-            if not _close_scalar(score_end, lp_end_obs, terms=8):
-                ctx.violation(f"C28|op=edit|on=HMC|field=new-score|cond={lclass}", detail=f"{label}: new trace score {score_end!r}, reference log p at its choices {lp_end_obs!r}", case=label)
-        # ---- alpha end to end
-        a_ref = (lpL + LF.kinetic_logpdf(pL)) - (lp0 + LF.kinetic_logpdf(p0))
-        a_sens = abs((lpLs + LF.kinetic_logpdf(pLs)) - (lpL + LF.kinetic_logpdf(pL)))
-        ctx.count("alpha_checked")
-        if traj_ok and mom_ok:
-            if not _close_scalar(alpha, a_ref, sens=a_sens, terms=16):
-                ctx.violation(f"C28|op=edit|on=HMC|field=alpha|cond={lclass}", detail=f"{label}: alpha {alpha!r}, reference H(start)-H(end) {a_ref!r}", case=label)
-        else:
-            ctx.count("alpha_not_judged_trajectory_already_wrong")
-        # ---- per-step stream (eager)
-        if strm is not None:
-            _check_stream(ctx, label, lclass, strm, traj, ref, readers, sel_cont, sens_q, L)
-        if ki < (1 if mode == "eager" else 64):
-            first_end.append((r, q_end, pL_obs, alpha))
-        ctx.sample({"case": label, "start": {str(a): q0[a].tolist() for a in sel_cont}, "momenta": {str(a): p0[a].tolist() for a in sel_cont}, "end": {str(a): q_end[a].tolist() for a in sel_cont}, "reference_end": {str(a): qL[a].tolist() for a in sel_cont}, "alpha": alpha, "reference_alpha": a_ref}, limit=2)
-
-    if not first_end:
+    ended = []  # (variant, result, q_end, pL_obs, alpha) for the injection arms
+    for (r, strm), v in zip(outs, owner):
+        j = judge_item(ctx, v, r, strm, tpl, fam_label, fp0, mode, L, lclass, sel_cont, unselected, covered, covers_discrete, readers, addrs, pool)
+        if j is not None:
+            ended.append((v, r) + j)
+    if not ended:
         return
-    # ---- reversibility and composition (injected momenta)
     try:
-        _reverse_and_compose(ctx, label, lclass, mode, make_f, run_items, tr, first_end, ref, readers, addrs, sel_cont, q0, eps, L, do_comp, jax, jnp, rng)
+        _reverse_and_compose(ctx, fam_label, lclass, make_f, run_items, ended, readers, addrs, sel_cont, L, do_comp, jax, jnp, srng)
     except Exception as e:
         ctx.count("raised")
-        ctx.violation(f"C28|op=edit|on=HMC|field=raises|cond=injected,{common.exc_mechanism(e)}", detail=f"{label}: {type(e).__name__}: {str(e)[:160]}", case=label)
+        ctx.violation(f"C28|op=edit|on=HMC|field=raises|cond=injected,{common.exc_mechanism(e)}", detail=f"{fam_label}: {type(e).__name__}: {str(e)[:160]}", case=fam_label)
+
+
+def judge_item(ctx, v, r, strm, tpl, fam_label, fp0, mode, L, lclass, sel_cont, unselected, covered, covers_discrete, readers, addrs, pool):
+    from vf.ref import leapfrog as LF
+
+    rv, q0, lp0, got0, eps = v["rv"], v["q0"], v["lp0"], v["got0"], v["eps"]
+    label = f"{fam_label}/eps={eps}"
+    new = {a: np.asarray(x) for a, x in zip(addrs, r["vals"])}
+    alpha, score_end, p0score = float(r["alpha"]), float(r["score"]), float(r["p0score"])
+    try:
+        p0 = _f64({a: readers[a](r["p0"]) for a in sel_cont})
+        pL_obs = _f64({a: readers[a](r["pL"]) for a in sel_cont})
+    except Exception as e:
+        ctx.count("momenta_unreadable")
+        ctx.note(f"drawn momenta not readable by address ({type(e).__name__}); item skipped: {label}")
+        return None
+    ndim = int(sum(np.size(q0[a]) for a in sel_cont))
+    nontrivial = bool(L >= 2 and eps >= 0.02 and (not tpl["quadratic"] or ndim >= 2))
+    ctx.evaluation(fingerprint=fp0 + (eps >= 0.02,), nontrivial=nontrivial)
+    ctx.count(f"mode:{mode}")
+    ctx.count(f"template:{tpl['name'].rstrip('0123456789')}")
+    ctx.count(f"L:{L}")
+    ctx.count("eps>=0.05" if eps >= 0.05 else "eps<0.05")
+    if covers_discrete:
+        ctx.count("selection_covers_discrete")
+    # ---- unselected choices (and selected discrete ones) do not move
+    for a in unselected:
+        ctx.count("unselected_checked")
+        if not np.array_equal(new[a], got0[a]):
+            what = "selected-discrete-choice" if a in covered else "unselected-choice"
+            ctx.violation(f"C28|op=edit|on=HMC|field={what}|cond=moved", detail=f"{label}: {a} changed {got0[a].tolist()} -> {new[a].tolist()}", case=label)
+    # ---- momenta bookkeeping
+    ctx.count("momenta_score_checked")
+    # over every leaf that was drawn (an implementation may also draw momenta for covered leaves
+    # that never move; they cancel in alpha)
+    import jax.tree_util as jtu
+
+    k_all = LF.kinetic_logpdf({i: np.asarray(x, np.float64) for i, x in enumerate(jtu.tree_leaves(r["p0"]))})
+    if not _close_scalar(p0score, k_all, terms=max(ndim, 1)):
+        ctx.violation("C28|op=edit|on=HMC|field=momenta-score|cond=initial", detail=f"{label}: score returned with the momenta {p0score!r}, sum log N over the drawn momenta = {k_all!r}", case=label)
+    pool["p0"].extend(np.concatenate([np.ravel(p0[a]) for a in sel_cont]).tolist())
+    leaves = [np.ravel(p0[a]) for a in sel_cont]
+    for i in range(len(leaves)):
+        for j in range(i + 1, len(leaves)):
+            if leaves[i].shape == leaves[j].shape:
+                ctx.count("momenta_leaf_pairs_checked")
+                if np.array_equal(leaves[i], leaves[j]):
+                    ctx.violation("C28|op=edit|on=HMC|field=momenta|cond=identical-across-leaves", detail=f"{label}: momenta of {sel_cont[i]} and {sel_cont[j]} are identical: {leaves[i].tolist()}", case=label)
+    # ---- reference trajectory with the observed momenta
+    with np.errstate(all="ignore"):
+        qL, pL, traj = LF.leapfrog(q0, p0, rv.grad, eps, L, trajectory=True)
+        prng = np.random.default_rng(int(v["rng"].integers(1 << 30)))
+        qLs, pLs = LF.leapfrog(_perturb(prng, q0), _perturb(prng, p0), rv.grad, eps, L)
+        lpL = rv.logp(qL)
+        lpLs = rv.logp(qLs)
+    finite = all(np.all(np.isfinite(qL[a])) and np.all(np.isfinite(pL[a])) for a in sel_cont) and np.isfinite(lpL)
+    sens_q = {a: np.abs(qLs[a] - qL[a]) for a in sel_cont}
+    sens_p = {a: np.abs(pLs[a] - pL[a]) for a in sel_cont}
+    ill = (not finite) or any(np.any(40 * sens_q[a] > 0.02 * (1 + np.abs(qL[a]))) or np.any(40 * sens_p[a] > 0.02 * (1 + np.abs(pL[a]))) for a in sel_cont)
+    if ill:
+        ctx.count("skipped_nonfinite_or_ill_conditioned")
+        return None
+    q_end = _f64({a: new[a] for a in sel_cont})
+    traj_ok = _close_dict(q_end, qL, sens_q)
+    ctx.count("trajectory_checked")
+    if L >= 2:
+        ctx.count("trajectory_checked_multistep")
+    stale = False
+    if not traj_ok:
+        qS, _pS = LF.leapfrog_stale(q0, p0, rv.grad, eps, L)
+        stale = L >= 2 and _close_dict(q_end, qS, sens_q)
+        cond = "stale-first-half-kick" if stale else lclass
+        ctx.violation(
+            f"C28|op=edit|on=HMC|field=trajectory|cond={cond}",
+            detail=f"{label}: selected values after the request { {str(a): q_end[a].tolist() for a in sel_cont} }, {L} textbook leapfrog steps give { {str(a): qL[a].tolist() for a in sel_cont} }" + (f"; an integrator that reuses the start gradient for every first half-kick gives { {str(a): qS[a].tolist() for a in sel_cont} }" if stale else ""),
+            case=label,
+            params=v["th"].tolist(),
+            start={str(a): np.asarray(x).tolist() for a, x in got0.items()},
+            momenta={str(a): p0[a].tolist() for a in sel_cont},
+        )
+    ctx.count("final_momentum_checked")
+    mom_ok = _close_dict(pL_obs, pL, sens_p)
+    if not mom_ok:
+        cond = "stale-first-half-kick" if stale else lclass
+        ctx.violation(f"C28|op=edit|on=HMC|field=final-momentum|cond={cond}", detail=f"{label}: final momenta { {str(a): pL_obs[a].tolist() for a in sel_cont} } reference { {str(a): pL[a].tolist() for a in sel_cont} }", case=label)
+    # ---- alpha from the observed end state (energy bookkeeping, independent of the integrator)
+    lp_end_obs = rv.logp(q_end)
+    if np.isfinite(lp_end_obs):
+        ctx.count("alpha_energy_checked")
+        a_energy = (lp_end_obs + LF.kinetic_logpdf(pL_obs)) - (lp0 + LF.kinetic_logpdf(p0))
+        if not _close_scalar(alpha, a_energy, terms=16):
+            ctx.violation(f"C28|op=edit|on=HMC|field=alpha-energy|cond={lclass}", detail=f"{label}: alpha {alpha!r}, H(start)-H(end) on the observed end state {a_energy!r}", case=label)
+        ctx.count("new_score_checked")
+        if not _close_scalar(score_end, lp_end_obs, terms=8):
+            ctx.violation(f"C28|op=edit|on=HMC|field=new-score|cond={lclass}", detail=f"{label}: new trace score {score_end!r}, reference log p at its choices {lp_end_obs!r}", case=label)
+    # ---- alpha end to end
+    a_ref = (lpL + LF.kinetic_logpdf(pL)) - (lp0 + LF.kinetic_logpdf(p0))
+    a_sens = abs((lpLs + LF.kinetic_logpdf(pLs)) - (lpL + LF.kinetic_logpdf(pL)))
+    ctx.count("alpha_checked")
+    if traj_ok and mom_ok:
+        if not _close_scalar(alpha, a_ref, sens=a_sens, terms=16):
+            ctx.violation(f"C28|op=edit|on=HMC|field=alpha|cond={lclass}", detail=f"{label}: alpha {alpha!r}, reference H(start)-H(end) {a_ref!r}", case=label)
+    else:
+        ctx.count("alpha_not_judged_trajectory_already_wrong")
+    if strm is not None:
+        _check_stream(ctx, label, lclass, strm, traj, rv, readers, sel_cont, sens_q, L)
+    ctx.sample({"case": label, "params": v["th"].tolist(), "start": {str(a): q0[a].tolist() for a in sel_cont}, "momenta": {str(a): p0[a].tolist() for a in sel_cont}, "end": {str(a): q_end[a].tolist() for a in sel_cont}, "reference_end": {str(a): qL[a].tolist() for a in sel_cont}, "alpha": alpha, "reference_alpha": a_ref}, limit=2)
+    return q_end, pL_obs, alpha
 
 
 def _check_stream(ctx, label, lclass, strm, traj, ref, readers, sel_cont, sens_q, L):
@@ -452,20 +512,22 @@ def _check_stream(ctx, label, lclass, strm, traj, ref, readers, sel_cont, sens_q
             break
 
 
-def _reverse_and_compose(ctx, label, lclass, mode, make_f, run_items, tr, first_end, ref, readers, addrs, sel_cont, q0, eps, L, do_comp, jax, jnp, rng):
+def _reverse_and_compose(ctx, fam_label, lclass, make_f, run_items, ended, readers, addrs, sel_cont, L, do_comp, jax, jnp, srng):
     import jax.tree_util as jtu
 
     from vf.ref import leapfrog as LF
 
-    key = jax.random.key(int(rng.integers(1, 2**31 - 1)))
+    key = jax.random.key(int(srng.integers(1, 2**31 - 1)))
     before = TAP["inject_mismatch"]
-    rev = run_items([(r["trace"], key, jtu.tree_map(lambda v: -v, r["pL"]), True) for r, _q, _p, _a in first_end])
+    rev = run_items([(r["trace"], key, jtu.tree_map(lambda x: -x, r["pL"]), True, v["eps"]) for v, r, _q, _p, _a in ended])
     if TAP["inject_mismatch"] != before:
         ctx.count("injection_structure_mismatch")
-        ctx.note(f"momenta tree is not laid out like the filtered choice map; injection arms not judged: {label}")
+        ctx.note(f"momenta tree is not laid out like the filtered choice map; injection arms not judged: {fam_label}")
         return
-    for (r, q_end, pL_obs, alpha), (rr, _s) in zip(first_end, rev):
-        back = _f64({a: np.asarray(v) for a, v in zip(addrs, rr["vals"]) if a in sel_cont})
+    for (v, r, q_end, pL_obs, alpha), (rr, _s) in zip(ended, rev):
+        rv, q0, eps = v["rv"], v["q0"], v["eps"]
+        label = f"{fam_label}/eps={eps}"
+        back = _f64({a: np.asarray(x) for a, x in zip(addrs, rr["vals"]) if a in sel_cont})
         p_back = _f64({a: readers[a](rr["pL"]) for a in sel_cont})
         p_used = _f64({a: readers[a](rr["p0"]) for a in sel_cont})
         p0 = _f64({a: readers[a](r["p0"]) for a in sel_cont})
@@ -474,11 +536,11 @@ def _reverse_and_compose(ctx, label, lclass, mode, make_f, run_items, tr, first_
             ctx.count("injection_failed")
             ctx.note(f"injected momenta were not the ones used; reversibility not judged: {label}")
             continue
-        # sensitivity of the round trip
         with np.errstate(all="ignore"):
             prng = np.random.default_rng(7)
-            qb, pb = LF.leapfrog(q_end, {a: -pL_obs[a] for a in sel_cont}, ref.grad, eps, L)
-            qbs, pbs = LF.leapfrog(_perturb(prng, q_end), _perturb(prng, {a: -pL_obs[a] for a in sel_cont}), ref.grad, eps, L)
+            neg = {a: -pL_obs[a] for a in sel_cont}
+            qb, pb = LF.leapfrog(q_end, neg, rv.grad, eps, L)
+            qbs, pbs = LF.leapfrog(_perturb(prng, q_end), _perturb(prng, neg), rv.grad, eps, L)
         if not all(np.all(np.isfinite(qb[a])) for a in qb):
             ctx.count("skipped_nonfinite_or_ill_conditioned")
             continue
@@ -496,25 +558,31 @@ def _reverse_and_compose(ctx, label, lclass, mode, make_f, run_items, tr, first_
             ctx.violation(f"C28|op=edit|on=HMC|field=reversibility|cond=alpha,{lclass}", detail=f"{label}: reversed alpha {float(rr['alpha'])!r}, forward alpha {alpha!r}", case=label)
     if do_comp:
         f1 = jax.jit(make_f(1))
-        r, q_end, pL_obs, alpha = first_end[0]
-        cur_tr, cur_p, tot = tr, r["p0"], 0.0
-        for _ in range(L):
-            s = f1(cur_tr, jax.random.key_data(key), cur_p, jnp.asarray(True))
-            cur_tr, cur_p, tot = s["trace"], s["pL"], tot + float(s["alpha"])
-        comp_q = _f64({a: np.asarray(v) for a, v in zip(addrs, s["vals"]) if a in sel_cont})
-        comp_p = _f64({a: readers[a](cur_p) for a in sel_cont})
-        with np.errstate(all="ignore"):
-            prng = np.random.default_rng(11)
-            p0 = _f64({a: readers[a](r["p0"]) for a in sel_cont})
-            qa, pa = LF.leapfrog(q0, p0, ref.grad, eps, L)
-            qs, ps = LF.leapfrog(_perturb(prng, q0), _perturb(prng, p0), ref.grad, eps, L)
-        sens = {a: 2 * np.abs(qs[a] - qa[a]) for a in sel_cont}
-        sensp = {a: 2 * np.abs(ps[a] - pa[a]) for a in sel_cont}
-        ctx.count("composition_checked")
-        if not (_close_dict(comp_q, q_end, sens) and _close_dict(comp_p, pL_obs, sensp)):
-            ctx.violation(f"C28|op=edit|on=HMC|field=composition|cond=single-steps-chained-differ-from-multi-step", detail=f"{label}: {L} chained single-step requests end at { {str(a): comp_q[a].tolist() for a in sel_cont} }, one {L}-step request at { {str(a): q_end[a].tolist() for a in sel_cont} }", case=label)
-        elif not _close_scalar(tot, alpha, terms=32):
-            ctx.violation(f"C28|op=edit|on=HMC|field=composition|cond=alpha-not-additive", detail=f"{label}: sum of single-step alphas {tot!r}, multi-step alpha {alpha!r}", case=label)
+        done = set()
+        for v, r, q_end, pL_obs, alpha in ended:
+            if id(v) in done:
+                continue
+            done.add(id(v))
+            rv, q0, eps = v["rv"], v["q0"], v["eps"]
+            label = f"{fam_label}/eps={eps}"
+            cur_tr, cur_p, tot = v["tr"], r["p0"], 0.0
+            for _ in range(L):
+                s = f1(cur_tr, jax.random.key_data(key), cur_p, jnp.asarray(True), jnp.asarray(eps, jnp.float32))
+                cur_tr, cur_p, tot = s["trace"], s["pL"], tot + float(s["alpha"])
+            comp_q = _f64({a: np.asarray(x) for a, x in zip(addrs, s["vals"]) if a in sel_cont})
+            comp_p = _f64({a: readers[a](cur_p) for a in sel_cont})
+            with np.errstate(all="ignore"):
+                prng = np.random.default_rng(11)
+                p0 = _f64({a: readers[a](r["p0"]) for a in sel_cont})
+                qa, pa = LF.leapfrog(q0, p0, rv.grad, eps, L)
+                qs, ps = LF.leapfrog(_perturb(prng, q0), _perturb(prng, p0), rv.grad, eps, L)
+            sens = {a: 2 * np.abs(qs[a] - qa[a]) for a in sel_cont}
+            sensp = {a: 2 * np.abs(ps[a] - pa[a]) for a in sel_cont}
+            ctx.count("composition_checked")
+            if not (_close_dict(comp_q, q_end, sens) and _close_dict(comp_p, pL_obs, sensp)):
+                ctx.violation("C28|op=edit|on=HMC|field=composition|cond=single-steps-chained-differ-from-multi-step", detail=f"{label}: {L} chained single-step requests end at { {str(a): comp_q[a].tolist() for a in sel_cont} }, one {L}-step request at { {str(a): q_end[a].tolist() for a in sel_cont} }", case=label)
+            elif not _close_scalar(tot, alpha, terms=32):
+                ctx.violation("C28|op=edit|on=HMC|field=composition|cond=alpha-not-additive", detail=f"{label}: sum of single-step alphas {tot!r}, multi-step alpha {alpha!r}", case=label)
 
 
 # ------------------------------------------------------------------------ momenta law (statistics)
@@ -533,31 +601,50 @@ def _pvals(x):
     return {"mean": p_mean, "variance": p_var, "ks": p_ks}
 
 
+def _direct_draws(ctx, jax, jnp, n_keys):
+    """Momenta straight from the (wrapped) module-level sampler, vmapped over fresh keys, for a
+    gradient tree with a vector and a scalar leaf.  Also checks the score returned with them."""
+    import jax.tree_util as jtu
+
+    from vf.ref import leapfrog as LF
+
+    H = _INSTALLED["H"]
+    shape_tree = {"a": jnp.zeros((4,), jnp.float32), "b": jnp.zeros((), jnp.float32)}
+    keys = jax.random.split(jax.random.key(int(ctx.rng.integers(1, 2**31 - 1))), n_keys)
+    draws, scores = jax.jit(jax.vmap(lambda k: H.sample_momenta(k, shape_tree)))(keys)
+    draws = jtu.tree_map(np.asarray, draws)
+    scores = np.asarray(scores)
+    for i in range(min(8, n_keys)):
+        ctx.count("direct_momenta_score_checked")
+        k_ref = LF.kinetic_logpdf({"a": draws["a"][i], "b": draws["b"][i]})
+        if not _close_scalar(float(scores[i]), k_ref, terms=5):
+            ctx.violation("C28|op=sample_momenta|on=HMC|field=momenta-score|cond=direct-draw", detail=f"sample_momenta returned score {float(scores[i])!r} with momenta whose log N density is {k_ref!r}")
+            break
+    # independence across leaves / coordinates: no coordinate is a copy of another
+    ctx.count("direct_momenta_copies_checked")
+    if np.array_equal(draws["a"][:, 0], draws["b"]) or np.array_equal(draws["a"][:, 0], draws["a"][:, 1]):
+        ctx.violation("C28|op=sample_momenta|on=HMC|field=momenta|cond=identical-across-leaves", detail="directly drawn momenta: one coordinate is a copy of another")
+    return np.concatenate([np.ravel(draws["a"]), np.ravel(draws["b"])])
+
+
 def momenta_law(ctx, pool, jax, jnp):
-    x = pool["p0"]
+    """Stage 1: momenta observed inside HMC.edit pooled with direct draws from the sampler."""
+    n_direct = ctx.pick(1500, 6000)
+    x = np.concatenate([np.asarray(pool["p0"], np.float64), _direct_draws(ctx, jax, jnp, n_direct)])
     ctx.count("momenta_law_scalars", len(x))
-    if len(x) < 30:
-        return
+    ctx.count("momenta_law_scalars_observed_in_edit", len(pool["p0"]))
     pv = _pvals(x)
     flagged = [k for k, p in pv.items() if p < 1e-6]
     ctx.count("momenta_law_tests", len(pv))
     if not flagged:
         return
-    # stage 2: 8x the samples from an independent key stream, straight from the (wrapped) sampler
-    import jax.tree_util as jtu
-
-    H = _INSTALLED["H"]
-    n2 = 8 * len(x)
-    shape_tree = {"a": jnp.zeros((4,), jnp.float32), "b": jnp.zeros((), jnp.float32)}
-    nkeys = n2 // 5 + 1
-    keys = jax.random.split(jax.random.key(int(ctx.rng.integers(1, 2**31 - 1))), nkeys)
-    draws = jax.vmap(lambda k: H.sample_momenta(k, shape_tree)[0])(keys)
-    x2 = np.concatenate([np.ravel(np.asarray(v)) for v in jtu.tree_leaves(draws)])
+    # stage 2: 8x the samples from an independent key stream
+    x2 = _direct_draws(ctx, jax, jnp, 8 * len(x) // 5 + 1)
     pv2 = _pvals(x2)
     for k in flagged:
         ctx.count("momenta_law_stage2")
         if pv2[k] < 1e-9:
-            ctx.violation(f"C28|op=sample_momenta|on=HMC|field=momenta-law|cond={k}", detail=f"pooled momenta are not N(0,1): stage-1 p={pv[k]:.3g} on {len(x)} scalars, stage-2 p={pv2[k]:.3g} on {len(x2)}")
+            ctx.violation(f"C28|op=sample_momenta|on=HMC|field=momenta-law|cond={k}", detail=f"drawn momenta are not N(0,1): stage-1 p={pv[k]:.3g} on {len(x)} scalars, stage-2 p={pv2[k]:.3g} on {len(x2)}")
         elif pv2[k] < 1e-3:
             ctx.count("grey")
             ctx.note(f"momenta law {k}: stage-1 p={pv[k]:.3g}, stage-2 p={pv2[k]:.3g}: grey band")
@@ -570,14 +657,13 @@ def run(ctx):
 
     install_taps()
     pool = {"p0": []}
-    n_cases = ctx.pick(16 * 10, 16 * 110)
-    budget = ctx.pick(70.0, 700.0)
-    for ci in ctx.my_share(n_cases):
+    n_fam = ctx.pick(16 * 8, 16 * 70)
+    budget = ctx.pick(62.0, 420.0)
+    for fi in ctx.my_share(n_fam):
         if ctx.elapsed() > budget:
-            ctx.count("cases_dropped_by_time_budget")
+            ctx.count("families_dropped_by_time_budget")
             continue
-        run_case(ctx, ci, genjax, jax, jnp, pool)
-        ctx.count("cases")
+        run_family(ctx, fi, genjax, jax, jnp, pool)
     momenta_law(ctx, pool, jax, jnp)
     ctx.count("tap_sample_momenta_calls", TAP["n_sample"])
     ctx.count("tap_assess_momenta_calls", TAP["n_assess"])
